@@ -320,8 +320,10 @@ def _apply_oracles(obs, case, spec, flat, cfg, task, before_cfg, before_task, mo
     # ---- C06: outcome
     if obs["outcome"] == "exception":
         e = obs["exc"]
-        _v(obs, "C06", {"kind": "exception", "exc": e["exc"], "func": e["func"]},
-           f"{e['exc']}: {e['msg'][:160]} via {' > '.join(e['chain'])}")
+        # keyed by (optimizer, exception type, module of the innermost repository frame): robust against renamed helper
+        # functions and moved lines; the function chain is part of the witness text only
+        _v(obs, "C06", {"kind": "exception", "exc": e["exc"], "file": e["func"].split(":")[0]},
+           f"{e['exc']} in {e['func']}: {e['msg'][:160]} via {' > '.join(e['chain'])}")
     if result is None:
         return
     evo = result.evolution
